@@ -1,6 +1,6 @@
 (* C07 -- definitions freeze at first execution; clones are fully isolated.
    Only the property theorems; proofs are in proofs/EngineFacts.v. *)
-From V Require Import lib.Base model.TContext model.TTree model.TEscaper model.Engine spec.EngineSpec proofs.EngineFacts proofs.EngineHistFacts.
+From V Require Import lib.Base model.TContext model.TTree model.TEscaper model.Engine spec.EngineSpec proofs.EngineFacts proofs.EngineHistFacts proofs.EngineInvFacts.
 
 (* in EVERY world: once the set is marked executed, Parse on any of its templates fails and
    changes nothing at all *)
@@ -55,3 +55,12 @@ Theorem C07_parse_fails_forever : forall w o h obj ops h' obj' p,
   step w2 (OParse h' p) = (w2, RErrCannotParse).
 Proof. exact parse_fails_forever. Qed.
 Print Assumptions C07_parse_fails_forever.
+
+(* in every reachable world every handle the client holds denotes the member that its set registers
+   under its own name, or an empty shell (no tree, never executed) left behind by a redefinition:
+   there are no stale handles through which an executed definition could be reached or replaced *)
+Theorem C07_handles_registered : forall ops h obj,
+  let w := run_from world0 ops in
+  handle w h = Some obj -> registered w obj \/ husk w obj.
+Proof. exact handles_registered. Qed.
+Print Assumptions C07_handles_registered.
